@@ -45,8 +45,9 @@ from aioquic.quic import events as qev  # noqa: E402
 from aioquic.quic.connection import QuicConnectionState  # noqa: E402
 
 class RunTimeout(Exception):
-    """one execution exceeded its wall-clock allowance (normal executions take ~10 ms):
-    a loop that does not terminate in this setting"""
+    """one execution used more than RUN_SECONDS of user-mode CPU time (normal executions
+    take ~10 ms): a loop that does not terminate in this setting.  CPU time, not wall time,
+    so that machine load cannot fire it."""
 
 
 RUN_SECONDS = 8.0
@@ -59,15 +60,15 @@ class deadline:
         self.seconds = seconds or RUN_SECONDS
 
     def _fire(self, signum, frame):
-        raise RunTimeout("execution still running after %.0f s" % self.seconds)
+        raise RunTimeout("execution still running after %.0f s of CPU time" % self.seconds)
 
     def __enter__(self):
-        self.old = signal.signal(signal.SIGALRM, self._fire)
-        signal.setitimer(signal.ITIMER_REAL, self.seconds)
+        self.old = signal.signal(signal.SIGVTALRM, self._fire)
+        signal.setitimer(signal.ITIMER_VIRTUAL, self.seconds)
 
     def __exit__(self, *a):
-        signal.setitimer(signal.ITIMER_REAL, 0)
-        signal.signal(signal.SIGALRM, self.old)
+        signal.setitimer(signal.ITIMER_VIRTUAL, 0)
+        signal.signal(signal.SIGVTALRM, self.old)
         return False
 
 
@@ -569,10 +570,18 @@ def task_a(item):
     sid, scenario, prefixes = item
     res = {"schedules": 0, "runs": 0, "steps": 0, "packets": 0, "qlogs": 0, "viol": [], "outcomes": set(),
            "unopened": 0, "exceptions_both": 0}
+    def run_confirmed(prefix, setting):
+        r = run_setting_a(scenario, prefix, setting)
+        if r["outcome"] == "timeout":
+            r = run_setting_a(scenario, prefix, setting)  # must be reproducible to count
+        return r
+
     for prefix in prefixes:
-        ref = run_setting_a(scenario, prefix, SETTINGS[0])
-        if not ref["consumed"] or ref["diverged"]:
-            raise core.HarnessError("reference run of %s %r did not follow its own schedule" % (sid, prefix))
+        ref = run_confirmed(prefix, SETTINGS[0])
+        if ref["diverged"] or (not ref["consumed"] and ref["outcome"] != "timeout"):
+            raise core.HarnessError("reference run of %s %r did not follow its own schedule (outcome %s, %d "
+                                    "choice points, diverged=%r, exc=%r)"
+                                    % (sid, prefix, ref["outcome"], len(ref["choices"]), ref["diverged"], ref["exc"]))
         res["schedules"] += 1
         res["runs"] += 1
         res["steps"] += len(ref["obs"][0])
@@ -583,7 +592,7 @@ def task_a(item):
             res["exceptions_both"] += 1
         stop = ref["outcome"] == "timeout"
         for setting in SETTINGS[1:]:
-            o = run_setting_a(scenario, prefix, setting)
+            o = run_confirmed(prefix, setting)
             res["runs"] += 1
             res["qlogs"] += o["qlogs"]
             vs = compare_a(ref, o, setting) + o["viol"]
@@ -618,6 +627,20 @@ def make_bot(state, setting, rec):
     return bot
 
 
+# packet-level inputs C05's menus do not contain: reserved header bits, wrong key phase,
+# duplicate and very old packet numbers (the packet_dropped / early-return paths of the log)
+SPECIALS = [
+    ("PING_reserved1", {"reserved": 1}),
+    ("PING_reserved2", {"reserved": 2}),
+    ("PING_reserved3", {"reserved": 3}),
+    ("PING_key_phase_flipped", {"key_phase": 1}),
+    ("PING_fresh_pn", {}),
+    ("PING_duplicate_pn", {"dup": True}),
+    ("PING_pn_zero_again", {"pn": 0}),
+    ("PING_pn_len4", {"pn_len": 4}),
+    ("PING_pn_len1", {"pn_len": 1}),
+]
+
 _PLAN = {}
 
 
@@ -633,6 +656,11 @@ def plan_b(state, tier):
                 continue
             for i, (label, _p) in enumerate(fm):
                 out.append(("frames", ep, i, label))
+        for ep in c05.STATES[state][2]:
+            if bot.keys(ep) is None:
+                continue
+            for i, (label, _kw) in enumerate(SPECIALS):
+                out.append(("special", ep, i, "%s@%s" % (label, ep)))
         _PLAN[k] = out
     return _PLAN[k]
 
@@ -671,7 +699,15 @@ class Lane:
                 if bot.keys(epoch) is None:
                     return ("NOKEYS", epoch)
                 pad = 1200 if epoch == "initial" and bot.p_name == "c" else None
-                bot.feed(bot.build(None, epoch=epoch, payload=fm[desc[2]][1]), pad_to=pad)
+                if desc[0] == "special":
+                    kw = dict(SPECIALS[desc[2]][1])
+                    if kw.pop("dup", False):
+                        kw["pn"] = bot.next_pn - 1 if bot.next_pn > 0 else 0
+                    if epoch != "1rtt":
+                        kw.pop("key_phase", None)
+                    bot.feed(bot.build(None, epoch=epoch, payload=b"\x01", **kw), pad_to=pad)
+                else:
+                    bot.feed(bot.build(None, epoch=epoch, payload=fm[desc[2]][1]), pad_to=pad)
             E = bot.E
             n = 0
             if E.conn._state.name in ("CLOSING", "DRAINING", "TERMINATED") or E.terminated is not None:
@@ -972,8 +1008,8 @@ def run_api_case(case, logger):
             exc[0] = (type(e).__name__, classify(e)[1], name)
             log.append((name, "EXC", type(e).__name__))
 
-    signal.signal(signal.SIGALRM, deadline()._fire)
-    signal.setitimer(signal.ITIMER_REAL, RUN_SECONDS)
+    signal.signal(signal.SIGVTALRM, deadline()._fire)
+    signal.setitimer(signal.ITIMER_VIRTUAL, RUN_SECONDS)
     step("shuttle0", shuttle)
     sid = client.get_next_available_stream_id()
     if actor == "c" and kind == "headers":
@@ -1002,7 +1038,7 @@ def run_api_case(case, logger):
             step("send_headers", lambda: hs.send_headers(sid, list(c16.RESP)))
             step("send_data", lambda: hs.send_data(sid, arg, end_stream=True))
         step("shuttle2", shuttle)
-    signal.setitimer(signal.ITIMER_REAL, 0)
+    signal.setitimer(signal.ITIMER_VIRTUAL, 0)
     viol = []
     nq = 0
     if logger:
